@@ -152,8 +152,10 @@ pub fn de_doc<T: Elem>(d: &Doc, t: Transport) -> Result<TooDee<T>, ()> {
 }
 
 pub trait Elem: Sized + Clone + Default + Ord + Hash + Serialize + DeserializeOwned + 'static {
-    /// `T: Copy` (only `u32`): `copy_*` ops and view serialisation are available.
+    /// `T: Copy` with the `Copy`-only operations wired up (`u32` and the wide kind `W`): `copy_*` ops are available.
     const IS_U32: bool = false;
+    /// `Serialize` for views exists for `u32` only.
+    const VIEW_SER: bool = false;
     fn mk(v: u32) -> Self;
     fn val(&self) -> u32;
     fn bump(&mut self, by: u32);
@@ -182,6 +184,7 @@ pub trait Elem: Sized + Clone + Default + Ord + Hash + Serialize + DeserializeOw
 
 impl Elem for u32 {
     const IS_U32: bool = true;
+    const VIEW_SER: bool = true;
     fn mk(v: u32) -> Self {
         v
     }
@@ -268,6 +271,85 @@ impl Elem for F {
     }
     fn ledger_tokens() -> String {
         "- 0 0".to_string()
+    }
+}
+
+// ---------------------------------------------------------------- W (a wide `Copy` cell: 96 bytes)
+//
+// The element size is not a parameter of the model; the crate's algorithms may not depend on it either (beyond `Vec`'s
+// capacity limit).  `W` behaves like `u32` in every operation but is large enough to cross any size threshold a "small cell /
+// large cell" code path could use, and every word of it repeats the value so that a cell assembled from parts of two cells is
+// visible (`val` then reports a poison value).  No ledger; all `Copy`-only operations are available.
+
+#[derive(Clone, Copy, Debug)]
+pub struct W {
+    v: u32,
+    pad: [u64; 11],
+}
+pub const TORN: u32 = 3735928559;
+
+impl Default for W {
+    fn default() -> Self {
+        W::mk(0)
+    }
+}
+impl PartialEq for W {
+    fn eq(&self, o: &Self) -> bool {
+        self.val() == o.val()
+    }
+}
+impl Eq for W {}
+impl PartialOrd for W {
+    fn partial_cmp(&self, o: &Self) -> Option<Ordering> {
+        Some(self.cmp(o))
+    }
+}
+impl Ord for W {
+    fn cmp(&self, o: &Self) -> Ordering {
+        self.val().cmp(&o.val())
+    }
+}
+impl Hash for W {
+    fn hash<H: Hasher>(&self, h: &mut H) {
+        self.val().hash(h)
+    }
+}
+impl Serialize for W {
+    fn serialize<S: Serializer>(&self, s: S) -> Result<S::Ok, S::Error> {
+        s.serialize_u32(self.val())
+    }
+}
+impl<'de> Deserialize<'de> for W {
+    fn deserialize<D: Deserializer<'de>>(d: D) -> Result<Self, D::Error> {
+        u32::deserialize(d).map(W::mk)
+    }
+}
+impl Elem for W {
+    const IS_U32: bool = true;
+    fn mk(v: u32) -> Self {
+        W { v, pad: [v as u64; 11] }
+    }
+    fn val(&self) -> u32 {
+        if self.pad.iter().all(|&p| p == self.v as u64) {
+            self.v
+        } else {
+            TORN
+        }
+    }
+    fn bump(&mut self, by: u32) {
+        *self = W::mk(self.val().wrapping_add(by));
+    }
+    fn ledger_tokens() -> String {
+        "- 0 0".into()
+    }
+    fn copy_from_slice<X: CopyOps<Self>>(x: &mut X, src: &[Self]) {
+        x.copy_from_slice(src)
+    }
+    fn copy_from_toodee<X: CopyOps<Self>, S: TooDeeOps<Self>>(x: &mut X, src: &S) {
+        x.copy_from_toodee(src)
+    }
+    fn copy_within<X: CopyOps<Self>>(x: &mut X, src: (Coordinate, Coordinate), dest: Coordinate) {
+        x.copy_within(src, dest)
     }
 }
 
